@@ -326,6 +326,23 @@ impl Check for C01 {
         if rng.chance(1, 8) {
             plan.consumer = Consumer::DropAt(rng.below(gen::rough_span(&plan)));
         }
+        // rarely: the application keeps the receiver but never polls it while the server reports
+        // more than a thousand changes; requests issued afterwards must still be served
+        if rng.chance(1, 200) {
+            let n = *rng.pick(&[1025usize, 1100, 2050]);
+            plan.changes = (0..n)
+                .map(|i| ChangeEvent {
+                    at_ms: i as u64,
+                    names: vec![crate::session::mpd::SUBSYSTEMS[i % 14].to_string()],
+                })
+                .collect();
+            plan.net = NetPolicy::default();
+            plan.consumer = Consumer::Never;
+            for c in plan.callers.iter_mut() {
+                c.insert(0, Op::Think { ms: n as u64 + rng.below(50) });
+            }
+            ctx.counters.bump("notification_flood_with_unpolled_receiver");
+        }
         ctx.about_to_eval(&plan);
         let (ev, out) = eval_with(&plan, oracle::check_c01, nt_c01);
         bump_probes(ctx, &plan, &out);
